@@ -392,6 +392,18 @@ func verify(c *common.Ctx, cp crashPoint, dbName string, allowed []posImg, key s
 	// the restarted node can commit again, in the journal mode the recovered header names, and what it commits replicates
 	if followUp && primary && db != nil && len(im.Pages) > 0 {
 		walMode := len(im.Pages[0]) > 19 && im.Pages[0][18] == 2 && im.Pages[0][19] == 2
+		if !walMode {
+			// the recovered header names rollback-journal mode: a connection that reads (SHARED held shared) keeps
+			// LiteFS's own writers (apply, import, checkpoint, halt) out, as it does on a node that never crashed
+			const reader = 424242
+			if db.TryRLocks(context.Background(), reader, []litefs.LockType{litefs.LockTypeShared}) {
+				if gs := db.TryAcquireWriteLock(); gs != nil {
+					gs.Unlock()
+					c.Violate(key+":follow-up:reader-not-excluded", fmt.Sprintf("crash at [%s]: the recovered database is in rollback-journal mode (page 1 versions 1/1); with a connection reading it (SHARED held) LiteFS's internal write lock is granted all the same: the restarted node takes the locks of the other journal mode", cp.Label), rep2)
+				}
+				_ = db.Unlock(context.Background(), reader, []litefs.LockType{litefs.LockTypeShared})
+			}
+		}
 		h := hist.NewOn(c, c.Rng.Fork(), hist.Config{PageSize: im.PageSize, AllowWAL: walMode, ForceWAL: walMode}, n.Store, n.Exits, dbName, im, txid, walMode)
 		wantOp := map[bool]string{false: "rtx", true: "wtx"}[walMode]
 		for tries := 0; tries < 200; tries++ {
